@@ -5,6 +5,7 @@
    [cfg_ok cfg]: the level mapping has eight names, which NewParser guarantees (C09_new_parser). *)
 From SV Require Import Model.Common Model.Utf8 Model.Parser Model.Composite Spec.Utf8Spec Spec.SyslogSpec
   Proofs.Utf8Proofs Proofs.ParserProofs Proofs.CompositeProofs.
+From SV Require Model.GoSem Model.GoExt Gen.C09Gen Proofs.C09GenEquiv.
 Open Scope N_scope.
 
 (* 1. A well-formed line "<PRI>1 time host app pid msgid sd msg" (PRI 0..191 in its RFC form, the six
@@ -378,3 +379,37 @@ Theorem C09_example :
   f_level (record_of severity_names 163 example_header example_msg 74) = [101;114;114].
 Proof. exact example_lemma. Qed.
 Print Assumptions C09_example.
+
+(* ---- The tie to the SOURCE: Gen/C09Gen.v is regenerated by tools/go2coq from util/utf8.go and util/strings.go
+   on every check.  For every byte string each generated Gallina function returns the value of the hand-written
+   model function of Model/Utf8.v (no panic, the loop's fuel suffices).  strings.ToValidUTF8 stays a named
+   external function (Model/GoExt.v = the model's to_valid_utf8, compared with the Go library by the
+   correspondence run); logger.Errorf is dropped.  A change of behaviour of these Go functions changes the
+   generated term and breaks the proof, whether or not a generated test case hits the change. ---- *)
+Theorem C09_generated_findLastEndOfASCII_agrees :
+  forall s : bytes, C09Gen.findLastEndOfASCII s = GoSem.GOk (Z.of_nat (find_last_end_of_ascii s)).
+Proof. exact C09GenEquiv.fle_gen_eq. Qed.
+Print Assumptions C09_generated_findLastEndOfASCII_agrees.
+
+Theorem C09_generated_OverwriteNTruncate_agrees :
+  forall (main : bytes) (start : nat) (tail : bytes),
+    (start <= length main)%nat ->
+    C09Gen.OverwriteNTruncate main (Z.of_nat start) tail = GoSem.GOk (overwrite_n_truncate main start tail).
+Proof. exact C09GenEquiv.ont_gen_eq. Qed.
+Print Assumptions C09_generated_OverwriteNTruncate_agrees.
+
+Theorem C09_generated_CleanUTF8_agrees :
+  forall s : bytes, C09Gen.CleanUTF8 s = GoSem.GOk (clean_utf8 s).
+Proof. exact C09GenEquiv.clean_gen_eq. Qed.
+Print Assumptions C09_generated_CleanUTF8_agrees.
+
+(* ... hence C09_clean_utf8_prefix holds of the generated CleanUTF8 itself: on every byte string it returns a
+   value that is never longer, never ends inside a character, and is the input when that is valid UTF-8. *)
+Theorem C09_generated_CleanUTF8_prefix :
+  forall s : bytes, exists r, C09Gen.CleanUTF8 s = GoSem.GOk r /\
+    (length r <= length s)%nat /\ ends_on_boundary r /\ (valid_utf8 s -> r = s).
+Proof.
+  exact (fun s => ex_intro _ (clean_utf8 s) (conj (C09GenEquiv.clean_gen_eq s)
+          (conj (clean_utf8_length_lemma s) (conj (clean_utf8_boundary_lemma s) (clean_utf8_valid_id_lemma s))))).
+Qed.
+Print Assumptions C09_generated_CleanUTF8_prefix.
